@@ -17,6 +17,26 @@ Proof. exact entities_nodup. Qed.
 Theorem C20_unpatched_not_descended : forall l, visit_tref (TR l []) = [ETypeRef l].
 Proof. exact unpatched_not_descended. Qed.
 
+(* the type of every field, parameter, return member, enumerator field and alias is presented right after its owner, whole:
+   the owner's event is immediately followed by the complete walk of its type (nested element, key, value, success and
+   failure types to any depth), wherever in the file the owner stands *)
+Theorem C20_type_right_after_owner : forall f o t, In (o, t) (owned f) -> contains_block (visit_file f) o t.
+Proof. exact type_right_after_owner. Qed.
+Theorem C20_nested_types_follow : forall l ns, visit_tref (TR l ns) = ETypeRef l :: flat_map visit_tref ns.
+Proof. exact nested_types_follow. Qed.
+(* the type references presented are exactly the walks of the owned types, in source order: none skipped, none twice, none
+   from elsewhere *)
+Theorem C20_types_exactly_once : forall f, filter is_tref (visit_file f) = flat_map (fun p => visit_tref (snd p)) (owned f).
+Proof. exact types_exactly_once. Qed.
+(* events are entities, type references or the file itself, so the two exactness theorems together account for every event *)
+Theorem C20_every_event_accounted : forall e, is_entity e = true \/ is_tref e = true \/ e = EFile.
+Proof. intros e; destruct e; cbn; auto. Qed.
+
+Example C20_owner_instance :
+  let f := {| vfile_module := Some 1; vfile_defs := [VIface 2 [{| vo_id := 3; vo_params := [{| vf_id := 4; vf_ty := TR 10 [TR 11 []] |}]; vo_rets := [{| vf_id := 5; vf_ty := TR 12 [] |}] |}]] |} in
+  In (EParam 5, TR 12 []) (owned f) /\ filter is_tref (visit_file f) = [ETypeRef 10; ETypeRef 11; ETypeRef 12].
+Proof. cbn. split; [right; left|]; reflexivity. Qed.
+
 Example C20_instance :
   visit_file {| vfile_module := Some 1; vfile_defs := [VStruct 2 [{| vf_id := 3; vf_ty := TR 10 [TR 11 []; TR 12 [TR 13 []]] |}]; VAlias 4 (TR 14 [])] |}
   = [EFile; EModule 1; EStruct 2; EField 3; ETypeRef 10; ETypeRef 11; ETypeRef 12; ETypeRef 13; EAlias 4; ETypeRef 14].
